@@ -35,13 +35,18 @@ def families():
              "class TD(typing.TypedDict):\n    x: int\n    y: typing.NotRequired[str]\n")
     src_r = ("import dataclasses, typing\n@dataclasses.dataclass\nclass R1:\n    v: int\n    nxt: 'typing.Optional[R1]' = None\n"
              "    kids: 'list[R1]' = dataclasses.field(default_factory=list)\n")
+    src_p = ("import dataclasses\n@dataclasses.dataclass\nclass Account:\n    owner: str\n    _revision: int = 0\n")
     mods = {}
-    for name, src in (("verif_hist_a", src_a), ("verif_hist_b", src_b), ("verif_hist_r", src_r), ("verif_hist_i", src_i)):
+    for name, src in (("verif_hist_a", src_a), ("verif_hist_b", src_b), ("verif_hist_r", src_r), ("verif_hist_i", src_i),
+                      ("verif_hist_p", src_p)):
         m = types.ModuleType(name)
         sys.modules[name] = m
         exec(compile(src + "\nimport typelib\ndef um(ref, x):\n    return typelib.unmarshal(ref, x)\n", name, "exec", dont_inherit=True), m.__dict__)
         mods[name] = m
     A, B, R, I = mods["verif_hist_a"], mods["verif_hist_b"], mods["verif_hist_r"], mods["verif_hist_i"]
+    PF = mods["verif_hist_p"]
+    import pendulum
+    from typelib import serdes
     U = typing.Union
     u12 = datetime.datetime(2020, 1, 1, 12, tzinfo=UTC)
     nested = lambda: {"v": "1", "nxt": {"v": "2", "kids": [{"v": "3"}]}, "kids": [{"v": "4"}]}      # noqa: E731
@@ -94,6 +99,28 @@ def families():
                                 (2, 2): (lambda x: typelib.codec(list[U[int, str]]).decode(x), lambda: b'["x"]')},
         "same_routine_inputs2": {(1, 1): ma(U[int, str], lambda: "7"), (1, 2): ma(U[int, str], lambda: "seven"),
                                  (2, 1): um(typing.Optional[str], lambda: "a"), (2, 2): um(typing.Optional[str], lambda: None)},
+        # a private init field: building the marshaller first must not change what the unmarshaller reads
+        "private_fields": {(1, 1): ma(PF.Account, lambda: PF.Account("o", 7)), (1, 2): um(PF.Account, lambda: {"owner": "o", "_revision": "7"}),
+                           (2, 1): (lambda x: typelib.codec(PF.Account).encode(x), lambda: PF.Account("p", 3)),
+                           (2, 2): um(list[PF.Account], lambda: [{"owner": "q", "_revision": 2}])},
+        # literal / JSON text whose decoded value holds mutable containers below the top level
+        "nested_text": {(1, 1): um(typing.Any, lambda: "(1, [2, 3])"), (1, 2): (lambda x: serdes.load(x), lambda: "(1, [2, 3])"),
+                        (2, 1): um(typing.Any, lambda: '{"a": [1, {"b": [2]}]}'), (2, 2): (lambda x: serdes.load(x), lambda: b'{"a": [1, {"b": [2]}]}')},
+        "nested_text2": {(1, 1): um(dict, lambda: '{"a": [1, {"b": [2]}]}'), (1, 2): um(typing.Mapping, lambda: bytearray(b'{"a": [1, {"b": [2]}]}')),
+                         (2, 1): um(list, lambda: "[[1], [2]]"), (2, 2): um(tuple, lambda: "([1], [2])")},
+        # durations that are == but of different classes / different calendar fields
+        "duration_classes": {(1, 1): ma(datetime.timedelta, lambda: datetime.timedelta(days=365)),
+                             (1, 2): ma(datetime.timedelta, lambda: pendulum.duration(years=1)),
+                             (2, 1): um(str, lambda: datetime.timedelta(days=30)), (2, 2): um(str, lambda: pendulum.duration(months=1))},
+        # temporal -> text / bytes targets with equal instants at different offsets
+        "temporal_text_targets": {(1, 1): um(bytes, lambda: u12), (1, 2): um(bytes, lambda: u12.astimezone(_tz(9))),
+                                  (2, 1): um(list[str], lambda: [datetime.time(12, 0, tzinfo=UTC)]),
+                                  (2, 2): um(list[str], lambda: [datetime.time(17, 0, tzinfo=_tz(5))])},
+        # mapping keys that are == but print differently (exponent, offset)
+        "equal_keys": {(1, 1): um(dict[decimal.Decimal, int], lambda: {decimal.Decimal("1.0"): 1}),
+                       (1, 2): um(dict[decimal.Decimal, int], lambda: {decimal.Decimal("1.00"): 1}),
+                       (2, 1): um(dict[datetime.datetime, int], lambda: {u12: 1}),
+                       (2, 2): um(dict[datetime.datetime, int], lambda: {u12.astimezone(_tz(2)): 1})},
         "dateparse": {(1, 1): um(datetime.datetime, lambda: "2020-01-01"), (1, 2): um(datetime.date, lambda: "2020-01-01"),
                       (2, 1): um(datetime.timedelta, lambda: "PT1S"), (2, 2): um(datetime.timedelta, lambda: 1)},
     }
@@ -113,6 +140,9 @@ def deep_mutate(x, depth=0):
         for e in list(x.values()):
             changed |= deep_mutate(e, depth + 1)
         x["__mutated__"] = Sent(); changed = True
+    elif isinstance(x, tuple):
+        for e in x:                       # a tuple cannot be changed, what it holds can
+            changed |= deep_mutate(e, depth + 1)
     elif isinstance(x, bytearray):
         x.extend(b"!"); changed = True
     elif hasattr(x, "__dict__") and not isinstance(x, type) and type(x).__module__.startswith("verif_"):
@@ -234,4 +264,5 @@ class Zygote:
 
 FAMILY_NAMES = ["union_unmarshal", "union_marshal", "union_in_list", "instants", "instants_in_list", "text_carriers",
                 "bare_containers", "numbers", "same_name_classes", "string_refs", "recursive", "codec_configs", "dateparse",
-                "build_order", "build_order_nt", "same_routine_inputs", "same_routine_inputs2"]
+                "build_order", "build_order_nt", "same_routine_inputs", "same_routine_inputs2", "private_fields", "nested_text",
+                "nested_text2", "duration_classes", "temporal_text_targets", "equal_keys"]
